@@ -5,10 +5,10 @@ TECHNIQUE = "CBMC bounded symbolic execution of the real event.c/evmap.c API on 
 UNITS = ["event.c", "evmap.c"]
 FUNCTIONS = ['event_assign', 'event_add', 'event_add_nolock_', 'event_del', 'event_del_nolock_', 'event_active', 'event_active_nolock_', 'event_remove_timer', 'event_priority_set', 'event_get_priority', 'event_pending', 'event_initialized', 'event_base_get_num_events', 'event_base_get_max_events', 'event_base_loop', 'timeout_process', 'event_process_active', 'event_persist_closure', 'event_signal_closure', 'event_base_assert_ok_nolock_', 'evmap_io_add_', 'evmap_io_del_', 'evmap_signal_add_', 'evmap_signal_del_']
 BOUNDS = '2 events of fixed kinds per obligation (quick: timer+persistent I/O, I/O+persistent timer; thorough: 6 pairs incl. signal), 2 priorities; ALL histories of 2 API calls from 26 alternatives per call (per event: add(NULL), add(tv) x2, del, active x5 result/ncalls variants, remove_timer, priority_set x2; loop with clock +0 / +2 s): first call enumerated by the driver, second chosen by the solver; back-end refusal of a registration solver-chosen; timeouts from {0,1 s}/{1 s,2 s}'
-OUT = "histories longer than 2 calls; event_new/event_free (event_assign + event_del is used); persistent I/O events WITH a timeout and hand-activated signal events (cbmc does not fold reads of struct event's union after two members were written: measured, no result); evmap_check_integrity_ (cut: C05's subject); event_base_foreach_event; debug mode; EV_ET/EV_CLOSED/EV_WRITE events; symbolic durations (C01)"
+OUT = "histories longer than 2 calls (3-4 only for the listed prefixes); event_new/event_free (event_assign + event_del is used); in the all-histories obligations persistent I/O events are never given a timeout and signal events are never activated by hand (cbmc does not fold reads of struct event's unions after two members were written) - those combinations and common-timeout timers are covered only by the nu_* obligations (fixed prefix + any call) compiled with env/event_struct_nounion.h; evmap_check_integrity_ (cut: C05's subject); event_base_foreach_event; debug mode; EV_ET/EV_CLOSED/EV_WRITE events; symbolic durations (C01)"
 TEXT = 'After every call of every history the real library is compared with a reference model of the documented event state machine: event_pending (all flags and the reported expiry time), event_initialized, priority, event_base_get_num_events / get_max_events (active, added, virtual, combined), the callbacks invoked (count per event, result flags, order by priority then activation order, ties excepted), the return values of event_add/del/priority_set/remove_timer/event_base_loop, lock balance, and event_base_assert_ok_nolock_ runs with its assertions live.'
 NOTE = "FINDING (obligations hist_*_pre4..8 / pre16..20 fail on the unchanged tree, replayed natively): event_add() on an event that is active but not inserted (event_active() before event_add(), or a timed-out event re-added before its callback ran) returns 0 without registering the fd/signal; a persistent event then never fires on I/O.  Fix: fixes/C02-event-add-while-active.diff (1 line).  EVENT_BASE_COUNT_ADDED is modelled as the implementation defines it (number of list memberships inserted+timeout+active of non-internal events; event.h only promises 'may be more than the number of events you added').  Histories are explored as a tree without state merging (the rest of the history runs inside the branch of each choice)."
-ASSUMPTIONS = ['constructed event_base (env/evbase.h), recording back end that reports no I/O', 'virtual clock', 'allocation does not fail', 'callbacks do not call the API (C03/C45 cover that)']
+ASSUMPTIONS = ["nu_* obligations: the unions of struct event are laid out as structs (env/event_struct_nounion.h); sound as long as the library never writes one union member and reads another", 'constructed event_base (env/evbase.h), recording back end that reports no I/O', 'virtual clock', 'allocation does not fail', 'callbacks do not call the API (C03/C45 cover that)']
 DESIGN_REF = "DESIGN.md §5 C02"
 _T = int(os.environ.get("VP_PROBE_T", "0"))
 _PIN = [sum([["--restrict-function-pointer", x] for x in (
